@@ -2,6 +2,7 @@ package main
 
 import (
 	"fmt"
+	"regexp"
 	"strings"
 	"unicode"
 	"unicode/utf8"
@@ -144,10 +145,14 @@ func (t *text) part() string {
 		if t.gap > 50 {
 			g = "gt50"
 		}
-		t.desc = harness.D("text", t.id, "rep", t.rep, "len", len(t.s), "mb", b2i(t.mb), "gap", g)
+		t.desc = harness.D("text", t.id, "rep", t.rep, "len", len(t.s), "mb", b2i(t.mb), "gap", g, "initials", b2i(initialsRE.MatchString(t.s)))
 	}
 	return t.desc
 }
+
+// initialsRE: sentence punctuation directly followed by a capital letter and punctuation again
+// (dotted initials such as "U.S.A."), a shape the sentence detectors special-case.
+var initialsRE = regexp.MustCompile(`[.!?][A-Z][.!?]`)
 
 func b2i(b bool) int {
 	if b {
@@ -261,6 +266,22 @@ func maxSpaceGap(s string) int {
 	g, cur := 0, 0
 	for i := 0; i < len(s); i++ {
 		if s[i] == ' ' {
+			cur = 0
+			continue
+		}
+		cur++
+		if cur > g {
+			g = cur
+		}
+	}
+	return g
+}
+
+// maxRunWithout is the longest run of bytes that contains none of the (ASCII) bytes in set.
+func maxRunWithout(s, set string) int {
+	g, cur := 0, 0
+	for i := 0; i < len(s); i++ {
+		if strings.IndexByte(set, s[i]) >= 0 {
 			cur = 0
 			continue
 		}
